@@ -3452,6 +3452,17 @@ def slice_fn(item, opts, fired):
     def find(needle):
         pat = sig(lex(needle))
         hits = [k for k in range(len(texts) - len(pat) + 1) if texts[k:k + len(pat)] == pat]
+        if len(hits) == 0 and len(pat) > 3:
+            # anchor fallback (as for //@before / //@after): the first / last statement of the slice was edited itself; the longest
+            # unique proper prefix (>= 3 tokens) of the anchor still identifies it.  Never taken on the unchanged tree.
+            for plen in range(len(pat) - 1, 2, -1):
+                h2 = [k for k in range(len(texts) - plen + 1) if texts[k:k + plen] == pat[:plen]]
+                if len(h2) == 1:
+                    hits = h2
+                    fired["anchor_fallback"] = fired.get("anchor_fallback", 0) + 1
+                    break
+                if len(h2) > 1:
+                    break
         if len(hits) != 1:
             raise ExtractError(f"lost anchor: slice anchor {needle!r} matches {len(hits)} times")
         return stmt_bounds(item, ci[hits[0]])
